@@ -144,8 +144,15 @@ func (v *VFD) Snapshot() (wire []byte, ctl []string, log []string, closed bool, 
 	return append([]byte(nil), v.Wire...), append([]string(nil), v.Ctl...), append([]string(nil), v.Log...), v.Closed, len(v.Rq)
 }
 
+// ZeroLen, when set, answers write-like calls whose request is empty (the kernel returns 0 for
+// those without needing room, so no scripted answer is consumed).
+var ZeroLen func(v *VFD) (int, error)
+
 func (v *VFD) answer(want int) (int, error) {
 	v.Writes++
+	if want == 0 && ZeroLen != nil {
+		return ZeroLen(v)
+	}
 	if len(v.Script) == 0 {
 		return -1, syscall.EAGAIN // exhausted script: kernel is full from now on
 	}
@@ -302,8 +309,20 @@ func evString(ev uint32) string {
 	return s
 }
 
+// CtlHook, when set, is called at the entry of every epoll_ctl on a virtual descriptor (before the
+// call takes effect and without any shim lock held): a yield point for schedule forcing between a
+// decision taken by the caller and its epoll_ctl.
+var CtlHook func(fd, op int, events uint32)
+
 func EpollCtl(epfd, op, fd int, ev *syscall.EpollEvent) error {
 	if v := get(fd); v != nil {
+		if h := CtlHook; h != nil {
+			var e uint32
+			if ev != nil {
+				e = ev.Events
+			}
+			h(fd, op, e)
+		}
 		v.mu.Lock()
 		defer v.mu.Unlock()
 		switch op {
